@@ -30,9 +30,13 @@ Definition TX (d : date) (e : option date) (c : clear) (code : option str) (paye
    balance, the fee *)
 Record intent := { in_amount : option pdec; in_balance : option pdec; in_charge : option pdec;
                    in_rate : option pdec;        (* the stated exchange rate of a converted record *)
-                   in_secondary : option pdec    (* its stated secondary amount *) }.
-Definition INT (a b c rt sec : option pdec) : intent :=
-  {| in_amount := a; in_balance := b; in_charge := c; in_rate := rt; in_secondary := sec |}.
+                   in_secondary : option pdec;   (* its stated secondary amount *)
+                   in_date : option date;        (* the calendar date the record states *)
+                   in_payee : option str         (* the payee text it states, as one line (only where
+                                                    no rewrite rule captures a payee) *) }.
+Definition INT (a b c rt sec : option pdec) (d : option date) (p : option str) : intent :=
+  {| in_amount := a; in_balance := b; in_charge := c; in_rate := rt; in_secondary := sec;
+     in_date := d; in_payee := p |}.
 
 Inductive case :=
 | CRun (prec : precisions) (acct : str) (intended : list intent) (records : N) (trees : list stxn)
@@ -65,7 +69,9 @@ Definition intent_ok (acct : str) (i : intent) (t : stxn) : bool :=
   && match in_balance i with Some v => has_post acct (balance_is v) t | None => true end
   && match in_charge i with Some v => has_post s_commissions (amount_is v) t | None => true end
   && match in_rate i with Some v => existsb (cost_is v) (tr_posts t) | None => true end
-  && match in_secondary i with Some v => existsb (magnitude_is v) (tr_posts t) | None => true end.
+  && match in_secondary i with Some v => existsb (magnitude_is v) (tr_posts t) | None => true end
+  && match in_date i with Some d => date_eqb d (tr_date t) | None => true end
+  && match in_payee i with Some p => str_eqb p (tr_payee t) | None => true end.
 (* no stated intents: nothing to check; otherwise one per transaction read back, in order *)
 Fixpoint intents_ok (acct : str) (is : list intent) (items : list item) : bool :=
   match is, items with
